@@ -36,18 +36,40 @@ def maxSize : Nat := 4096
 /-- `labels.Validate(k, v) == nil`  (`total := len(k)+len(v); if total > maxSize {error}`). -/
 def validate (k v : Str) : Bool := decide (k.length + v.length ≤ maxSize)
 
-/-! ### label keys -/
+/-! ### label keys
+Written as explicit character lists (kernel evaluation of `String.toList` on literals is slow);
+the driver's `keys` op is compared with the Go constants on every run. -/
 
-def kRef : Str := "containerd.io/snapshot/remote/stargz.reference".toList
-def kDigest : Str := "containerd.io/snapshot/remote/stargz.digest".toList
-def kLayers : Str := "containerd.io/snapshot/remote/stargz.layers".toList
-def kURLsPrefix : Str := "containerd.io/snapshot/remote/urls.".toList
-def kURLs : Str := "containerd.io/snapshot/remote/urls".toList
-def kPrefetch : Str := "containerd.io/snapshot/remote/stargz.prefetch".toList
-def kCriRef : Str := "containerd.io/snapshot/cri.image-ref".toList
-def kCriDigest : Str := "containerd.io/snapshot/cri.layer-digest".toList
-def kCriLayers : Str := "containerd.io/snapshot/cri.image-layers".toList
-def kCriManifest : Str := "containerd.io/snapshot/cri.manifest-digest".toList
+/-- `"containerd.io/snapshot/remote/stargz.reference"` -/
+def kRef : Str :=
+  ['c', 'o', 'n', 't', 'a', 'i', 'n', 'e', 'r', 'd', '.', 'i', 'o', '/', 's', 'n', 'a', 'p', 's', 'h', 'o', 't', '/', 'r', 'e', 'm', 'o', 't', 'e', '/', 's', 't', 'a', 'r', 'g', 'z', '.', 'r', 'e', 'f', 'e', 'r', 'e', 'n', 'c', 'e']
+/-- `"containerd.io/snapshot/remote/stargz.digest"` -/
+def kDigest : Str :=
+  ['c', 'o', 'n', 't', 'a', 'i', 'n', 'e', 'r', 'd', '.', 'i', 'o', '/', 's', 'n', 'a', 'p', 's', 'h', 'o', 't', '/', 'r', 'e', 'm', 'o', 't', 'e', '/', 's', 't', 'a', 'r', 'g', 'z', '.', 'd', 'i', 'g', 'e', 's', 't']
+/-- `"containerd.io/snapshot/remote/stargz.layers"` -/
+def kLayers : Str :=
+  ['c', 'o', 'n', 't', 'a', 'i', 'n', 'e', 'r', 'd', '.', 'i', 'o', '/', 's', 'n', 'a', 'p', 's', 'h', 'o', 't', '/', 'r', 'e', 'm', 'o', 't', 'e', '/', 's', 't', 'a', 'r', 'g', 'z', '.', 'l', 'a', 'y', 'e', 'r', 's']
+/-- `"containerd.io/snapshot/remote/urls."` -/
+def kURLsPrefix : Str :=
+  ['c', 'o', 'n', 't', 'a', 'i', 'n', 'e', 'r', 'd', '.', 'i', 'o', '/', 's', 'n', 'a', 'p', 's', 'h', 'o', 't', '/', 'r', 'e', 'm', 'o', 't', 'e', '/', 'u', 'r', 'l', 's', '.']
+/-- `"containerd.io/snapshot/remote/urls"` -/
+def kURLs : Str :=
+  ['c', 'o', 'n', 't', 'a', 'i', 'n', 'e', 'r', 'd', '.', 'i', 'o', '/', 's', 'n', 'a', 'p', 's', 'h', 'o', 't', '/', 'r', 'e', 'm', 'o', 't', 'e', '/', 'u', 'r', 'l', 's']
+/-- `"containerd.io/snapshot/remote/stargz.prefetch"` -/
+def kPrefetch : Str :=
+  ['c', 'o', 'n', 't', 'a', 'i', 'n', 'e', 'r', 'd', '.', 'i', 'o', '/', 's', 'n', 'a', 'p', 's', 'h', 'o', 't', '/', 'r', 'e', 'm', 'o', 't', 'e', '/', 's', 't', 'a', 'r', 'g', 'z', '.', 'p', 'r', 'e', 'f', 'e', 't', 'c', 'h']
+/-- `"containerd.io/snapshot/cri.image-ref"` -/
+def kCriRef : Str :=
+  ['c', 'o', 'n', 't', 'a', 'i', 'n', 'e', 'r', 'd', '.', 'i', 'o', '/', 's', 'n', 'a', 'p', 's', 'h', 'o', 't', '/', 'c', 'r', 'i', '.', 'i', 'm', 'a', 'g', 'e', '-', 'r', 'e', 'f']
+/-- `"containerd.io/snapshot/cri.layer-digest"` -/
+def kCriDigest : Str :=
+  ['c', 'o', 'n', 't', 'a', 'i', 'n', 'e', 'r', 'd', '.', 'i', 'o', '/', 's', 'n', 'a', 'p', 's', 'h', 'o', 't', '/', 'c', 'r', 'i', '.', 'l', 'a', 'y', 'e', 'r', '-', 'd', 'i', 'g', 'e', 's', 't']
+/-- `"containerd.io/snapshot/cri.image-layers"` -/
+def kCriLayers : Str :=
+  ['c', 'o', 'n', 't', 'a', 'i', 'n', 'e', 'r', 'd', '.', 'i', 'o', '/', 's', 'n', 'a', 'p', 's', 'h', 'o', 't', '/', 'c', 'r', 'i', '.', 'i', 'm', 'a', 'g', 'e', '-', 'l', 'a', 'y', 'e', 'r', 's']
+/-- `"containerd.io/snapshot/cri.manifest-digest"` -/
+def kCriManifest : Str :=
+  ['c', 'o', 'n', 't', 'a', 'i', 'n', 'e', 'r', 'd', '.', 'i', 'o', '/', 's', 'n', 'a', 'p', 's', 'h', 'o', 't', '/', 'c', 'r', 'i', '.', 'm', 'a', 'n', 'i', 'f', 'e', 's', 't', '-', 'd', 'i', 'g', 'e', 's', 't']
 
 /-- `fmt.Sprintf("%d", i)` for `i ≥ 0`. -/
 def natDec (n : Nat) : Str := Nat.toDigits 10 n
@@ -92,9 +114,9 @@ def isLowerHex (c : Char) : Bool := ('0' ≤ c && c ≤ '9') || ('a' ≤ c && c 
 
 /-- Hex length required by `Algorithm.Validate` for the available algorithms; 0 = not available. -/
 def algHexLen (alg : Str) : Nat :=
-  if alg = "sha256".toList then 64
-  else if alg = "sha384".toList then 96
-  else if alg = "sha512".toList then 128
+  if alg = ['s', 'h', 'a', '2', '5', '6'] then 64
+  else if alg = ['s', 'h', 'a', '3', '8', '4'] then 96
+  else if alg = ['s', 'h', 'a', '5', '1', '2'] then 128
   else 0
 
 /-- `digest.Parse(s)` succeeds.  (`i := strings.Index(s, ":")`; `i <= 0 || i+1 == len(s)` is an
